@@ -97,6 +97,23 @@ class ConcEnv:
         self.notes[k] = v
 
 
+_HERE = __import__("os").path.dirname(__import__("os").path.dirname(__import__("os").path.abspath(__file__)))
+
+
+def raised_in_harness(exc: BaseException) -> bool:
+    """True if the innermost frame of the traceback is harness code (/verif), i.e. the harness - not flowmark - failed
+    (an API it calls was renamed, a signature changed, ...).  Such an exception is a harness error, never a violation."""
+    tb = exc.__traceback__
+    last = None
+    while tb is not None:
+        last = tb
+        tb = tb.tb_next
+    if last is None:
+        return True
+    fn = last.tb_frame.f_code.co_filename
+    return fn.startswith(_HERE)
+
+
 def inst(obj: Any, model: dict[str, int]) -> Any:
     """instantiate tokens inside a JSON-able structure"""
     if isinstance(obj, str):
@@ -144,6 +161,9 @@ def explore_case(module: str, case: dict[str, Any], sample_paths: int, rnd_seed:
             if n < 3:
                 viols.append({"label": v.label, "model": v.model, "detail": jsonable(v.detail), "path": p.index})
         if p.exc is not None:
+            if raised_in_harness(p.exc):
+                res.update(status="harness", error=f"the harness itself raised {type(p.exc).__name__}: {p.exc} (flowmark API changed?)", paths=ex.stats.paths, queries=ex.stats.queries, solver_s=ex.stats.solver_s, wall_s=time.time() - t0)
+                return res
             excs.append({"label": "exception:" + type(p.exc).__name__, "model": p.model, "detail": str(p.exc)[:300], "path": p.index})
     rnd = random.Random(rnd_seed)
     ok_paths = [p for p in paths if p.exc is None and not p.inconclusive]
@@ -181,7 +201,7 @@ def run_concrete(module: str, case: dict[str, Any], model: dict[str, int]) -> di
         out = mod.run(env, case)
         return {"out": jsonable(out), "failed": env.failed, "notes": jsonable(env.notes)}
     except Exception as e:  # noqa: BLE001
-        return {"exc": f"{type(e).__name__}: {e}", "failed": env.failed, "tb": traceback.format_exc()[-1500:]}
+        return {"exc": f"{type(e).__name__}: {e}", "failed": env.failed, "tb": traceback.format_exc()[-1500:], "in_harness": raised_in_harness(e)}
 
 
 # ------------------------------------------------------------------------------------------
@@ -281,7 +301,7 @@ def run_check(
         else:
             label = item["label"]
             if label.startswith("exception:"):
-                ok = "exc" in rr and rr["exc"].startswith(label.split(":", 1)[1])
+                ok = "exc" in rr and rr["exc"].startswith(label.split(":", 1)[1]) and not rr.get("in_harness")
             else:
                 ok = any(f["label"] == label for f in rr.get("failed", []))
             if not ok:
